@@ -37,17 +37,22 @@ def Prog.bind {α β : Type} : Prog α → (α → Prog β) → Prog β
   | .outOfFuel, _ => .outOfFuel
   | .send m k, f => .send m (fun r => (k r).bind f)
 
-/-- Run a program against a finite reply script; returns the messages emitted and the outcome. -/
-def Prog.run {α : Type} : Prog α → List Reply → List Msg × Outcome α
+/-- Run a program against a finite reply script; returns the conversation (each message with the
+    reply it got, `none` for a message the script had no reply left for) and the outcome. -/
+def Prog.run {α : Type} : Prog α → List Reply → List (Msg × Option Reply) × Outcome α
   | .done a, _ => ([], .ok a)
   | .fail, _ => ([], .proto)
   | .panic p, _ => ([], .panic p)
   | .outOfFuel, _ => ([], .outOfFuel)
-  | .send m _, [] => ([m], .starved)
-  | .send m _, .busError :: _ => ([m], .bus)
+  | .send m _, [] => ([(m, none)], .starved)
+  | .send m _, .busError :: _ => ([(m, some .busError)], .bus)
   | .send m k, .ok r :: rest =>
     let (tr, o) := (k r).run rest
-    (m :: tr, o)
+    ((m, some (.ok r)) :: tr, o)
+
+/-- The messages emitted. -/
+def Prog.trace {α : Type} (p : Prog α) (script : List Reply) : List Msg :=
+  (p.run script).1.map Prod.fst
 
 /-- `send_message_expect_response`. -/
 def expect {α : Type} (m : Msg) (want : Option Msg) (k : Prog α) : Prog α :=
@@ -119,12 +124,18 @@ def configure (a : UInt16) (t : SignType) : Prog Unit :=
 def readyStates : List State :=
   [.configReceived, .showingPages, .pageLoaded, .pageShowInProgress, .pageShown, .pageLoadInProgress]
 
+/-- `Some(Message::ReportState(address, state)) if address == self.address`: the state reported by
+    the sign's own address, if that is what the reply is. -/
+def ownReport? (a : UInt16) : Option Msg → Option State
+  | some (.reportState a' s) => if a' = a then some s else none
+  | _ => none
+
 /-- `Sign::configure_if_needed`. -/
 def configureIfNeeded (a : UInt16) (t : SignType) : Prog Unit :=
   .send (.hello a) fun r =>
-    match r with
-    | some (.reportState a' s) => if a' = a ∧ s ∈ readyStates then .done () else configure a t
-    | _ => configure a t
+    match ownReport? a r with
+    | some s => if s ∈ readyStates then .done () else configure a t
+    | none => configure a t
 
 /-- `Sign::send_pages` on the byte images of the pages. -/
 def sendPages (a : UInt16) (pages : List (List UInt8)) : Prog FlipStyle :=
@@ -138,17 +149,16 @@ def switchPage (a : UInt16) (target trigger : State) (op : Op) : Nat → Prog Un
   | 0 => .outOfFuel
   | fuel + 1 =>
     .send (.queryState a) fun r =>
-      match r with
-      | some (.reportState a' s) =>
-        if a' ≠ a then .fail
-        else if s = .showingPages then .done ()
+      match ownReport? a r with
+      | some s =>
+        if s = .showingPages then .done ()
         else if s = target then .done ()
         else if s = trigger then
           expect (.requestOp a op) (some (.ackOp a op)) (switchPage a target trigger op fuel)
         else if s = .pageLoadInProgress ∨ s = .pageShowInProgress then
           switchPage a target trigger op fuel
         else .fail
-      | _ => .fail
+      | none => .fail
 
 /-- `Sign::load_next_page`. -/
 def loadNextPage (a : UInt16) (fuel : Nat) : Prog Unit :=
